@@ -477,7 +477,9 @@ class Interp:
                 return self.dom.try_(self, v)
             raise Unrecognised("try desugaring shape")
         if src.startswith("ForLoopDesugar"):
-            raise Beyond("for loop")
+            if not getattr(self.dom, "finite_loops", False):
+                raise Beyond("for loop")
+            return self.ev_for(e, env)
         v = self.ev(e["e"], env)
         for arm in e["arms"]:
             # an arm `p | q if guard`: the guard is evaluated for every alternative that matches, in order
@@ -489,6 +491,37 @@ class Interp:
                         continue
                     return self.ev(arm["b"], e2)
         raise Panic("no match arm applies to %r" % (v,))
+
+    def ev_for(self, e, env):
+        """`for pat in iter { body }` over a finite iterable the domain can enumerate (opt-in: dom.finite_loops).
+        The desugared form is  match into_iter(x) { mut iter => loop { match next(&mut iter) { None => break,
+        Some(pat) => body } } }"""
+        src_iter = self.ev(e["e"]["a"][0], env) if e["e"].get("k") == "call" and e["e"].get("a") else self.ev(e["e"], env)
+        items = self.dom.iterate(self, src_iter)
+        if items is None:
+            raise Unrecognised("for loop over %r" % (src_iter,))
+        try:
+            loop = e["arms"][0]["b"]
+            m2 = loop["b"]["s"][0]["e"]
+            some = [a for a in m2["arms"] if (a["p"].get("p") or {}).get("n", "").endswith("Some")][0]
+            pat, body = some["p"]["f"][0][1], some["b"]
+            none = [a for a in m2["arms"] if (a["p"].get("p") or {}).get("n", "").endswith("None")][0]
+            own = none["b"].get("to")
+        except (KeyError, IndexError):
+            raise Unrecognised("for-loop shape")
+        for x in items:
+            env2 = dict(env)
+            if not self.match(pat, x, env2):
+                raise Unrecognised("for-loop pattern did not match %r" % (x,))
+            try:
+                self.ev(body, env2)
+            except Continue:
+                continue
+            except Break as b:
+                if b.to is None or b.to == own:
+                    break
+                raise
+        return ()
 
     def ev_cast(self, e, env):
         v = self.ev(e["e"], env)
